@@ -1,12 +1,15 @@
 CONSTANTS
-  MaxN = 200
+  MaxN = 1500
   MaxH = 3
   MaxE = 2
-  MaxP = 600
-  MaxM = 30
+  MaxP = 4000
+  MaxM = 60
   AllowArm = FALSE
   Patched = TRUE
   MaxOps = 5000
+  GDrop = 25
+  GOther = 40
+  GCollect = 15
 SPECIFICATION SimSpec
 INVARIANT Emit
 CHECK_DEADLOCK FALSE
